@@ -96,6 +96,14 @@ pub struct BatchOutcome {
 
 pub const CHUNK: u64 = 16384;
 pub const WATCHDOG_SECS: u64 = 60;
+pub static WATCHDOG_OVERRIDE: AtomicU64 = AtomicU64::new(0);
+
+pub fn watchdog_secs() -> u64 {
+    match WATCHDOG_OVERRIDE.load(Ordering::Relaxed) {
+        0 => WATCHDOG_SECS,
+        v => v,
+    }
+}
 
 /// slots the crash handler and the watchdog read: current run index + 1 per worker (0 = idle)
 pub static CURRENT: [AtomicU64; 64] = {
@@ -124,7 +132,7 @@ pub fn run_batch(prop: Prop, tier: Tier, seed: u64, runs: u64, threads: usize, m
                 std::thread::sleep(std::time::Duration::from_millis(250));
                 for s in &starts {
                     if let Some((idx, t)) = *s.lock().unwrap() {
-                        if t.elapsed().as_secs() >= WATCHDOG_SECS {
+                        if t.elapsed().as_secs() >= watchdog_secs() {
                             *hang.lock().unwrap() = Some(idx);
                             crate::report::report_hang(prop, tier, seed, idx);
                         }
